@@ -29,9 +29,11 @@ import (
 )
 
 type c15BurstCase struct {
-	Lens  []int    `json:"lens"`  // one requester per entry: payload length (>= 1; the first byte is the requester's index)
-	Seeds []uint64 `json:"seeds"` // payload i = byte(i) ++ c15h.Expand(seed_i, len_i-1)
-	OneP  bool     `json:"one_p"` // drain the queued queries with GOMAXPROCS(1)
+	Lens  []int    `json:"lens"`                 // one requester per entry: payload length (>= 1; the first byte is the requester's index)
+	Seeds []uint64 `json:"seeds"`                // payload i = byte(i) ++ c15h.Expand(seed_i, len_i-1)
+	OneP  bool     `json:"one_p"`                // drain the queued queries with GOMAXPROCS(1)
+	QCase int      `json:"qname_case,omitempty"` // case rewriting of every query name in transit (c15h.CaseKinds)
+	QSeed uint64   `json:"qname_case_seed,omitempty"`
 }
 
 const c15BurstDomain = "t.example.com"
@@ -136,6 +138,10 @@ func c15BurstCheck(t vh.Fataler, rec *vh.Rec, e *c15Env, c c15BurstCase) {
 	s.calls, s.retErr = nil, false
 	s.mu.Unlock()
 	s.tap.reset()
+	if c.QCase < 0 || c.QCase >= len(c15h.CaseKinds) {
+		t.Fatalf("harness problem: bad qname_case %d", c.QCase)
+	}
+	s.tap.setRecase(c15DomainLabels(c15BurstDomain), c.QCase, c.QSeed)
 	e.logs.reset()
 
 	type result struct {
@@ -306,6 +312,7 @@ func c15BurstCheck(t vh.Fataler, rec *vh.Rec, e *c15Env, c c15BurstCase) {
 	if c.OneP {
 		classes = append(classes, "one-p")
 	}
+	classes = append(classes, "qcase:"+c15h.CaseKinds[c.QCase])
 	var per []string
 	okAll := true
 	for i := range cls {
@@ -318,7 +325,7 @@ func c15BurstCheck(t vh.Fataler, rec *vh.Rec, e *c15Env, c c15BurstCase) {
 		}
 		per = append(per, fmt.Sprintf("#%d(%dB):%s,sent-back=%d", i, len(payloads[i]), st, o.sent[i]))
 	}
-	summary := fmt.Sprintf("{%d requesters %v; one-P drain=%v; responder read %d of their queries (+%d foreign), wrote %d answers; callback saw requesters %s of %s; timeout=%v; log=%q}",
+	summary := fmt.Sprintf("{query-name case in transit: "+c15h.CaseKinds[c.QCase]+"; %d requesters %v; one-P drain=%v; responder read %d of their queries (+%d foreign), wrote %d answers; callback saw requesters %s of %s; timeout=%v; log=%q}",
 		k, per, c.OneP, o.arrived, o.strays, o.sentTotal, c15Requesters(calls), c15Requesters(payloads), timedOut, o.lines)
 	finish := func(outcome string) {
 		rec.Case(outcome == "ok-all" && k >= 2, vh.Digest(c), c, append(classes, outcome)...)
@@ -395,13 +402,17 @@ func c15BurstGen(rt *rapid.T) c15BurstCase {
 		c.Lens = append(c.Lens, l)
 		c.Seeds = append(c.Seeds, rapid.Uint64Range(2, 1<<62).Draw(rt, "seed"))
 	}
+	c.QCase = rapid.SampledFrom([]int{0, 0, 0, 1, 3, 4, 5}).Draw(rt, "qcase")
+	if c.QCase != 0 {
+		c.QSeed = rapid.Uint64Range(2, 1<<40).Draw(rt, "qseed")
+	}
 	return c
 }
 
 func TestVerif_C15_exchange_concurrent(t *testing.T) {
 	rec := vh.NewRec("C15", "exchange_concurrent", "rapid: 2-8 real Requesters (UDP) send one request each (payloads of 1-98 bytes, all of one length in half of the cases, first byte = requester index so that all differ) to one real Responder under t.example.com whose read loop is stalled by the harness until every query has been written to its socket, then released (in half of the cases with GOMAXPROCS(1) until all queued queries have been read) so that it reads them back to back; the callback answers with a function of the request. Oracle: nobody receives a wrong answer; once all queries arrived the callback has seen exactly the multiset of payloads sent; a requester that was sent an answer (no rejection logged) gets it; a query that arrived is answered. Foreign datagrams or a time-out make the case inconclusive. Non-trivial = all of >= 2 requesters answered correctly; distinct by case")
 	defer rec.Flush()
-	rec.Require("ok-all", "one-p", "same-length", "k=2", "k=8")
+	rec.Require("ok-all", "one-p", "same-length", "k=2", "k=8", "qcase:as-sent", "qcase:0x20")
 	e, err := c15GetEnv()
 	if err != nil {
 		t.Fatalf("harness problem: %v", err)
